@@ -64,6 +64,13 @@ class OpDef:
     def exp_scale(self, args):
         return 1
 
+    def documented_inplace(self, args):
+        """labels of inputs the op is documented to update in place (C11 whitelist)"""
+        return ()
+
+    def deterministic(self, args):
+        return True
+
 
 def as_list(o):
     return list(o) if isinstance(o, (tuple, list)) else [o]
@@ -211,6 +218,64 @@ class OpCase:
     run_C05 = run_value
     run_C06 = run_value
 
+    # ------------------------------------------------------------------ no mutation (C11)
+    def run_C11(self, env):
+        out = E.Outcome()
+        specs, ts, arrays, names = self._make_inputs(env, True)
+        extra = self.opdef.extra(self.args, env)
+        Tn = T()
+        # a bystander outside the graph, with data and an accumulated gradient
+        by = Tn(env.arr("by", (2,), np.float32), requires_grad=True)
+        by_grad = env.arr("bygrad", (2,), np.float32)
+        by._grad = by_grad
+        white = set(self.opdef.documented_inplace(self.args))
+        watch = [("operand " + sp.label, t.data) for sp, t in zip(specs, ts) if sp.label not in white]
+        watch += [("bystander data", by.data), ("bystander grad", by_grad)]
+        snaps = [(lab, a, snapshot(a)) for lab, a in watch]
+        try:
+            o = self.opdef.forward(self.args, ts, extra)
+        except Exception as e:  # noqa: BLE001
+            if isinstance(e, sc.Unsupported):
+                raise
+            out.rejected = "%s: %s" % (type(e).__name__, e)
+            return out
+        outs = as_list(o)
+        first = [snapshot(oo.data) for oo in outs]
+        for lab, a, snap in snaps:
+            out.pair(lab + " unchanged by forward", snapshot(a), snap)
+        seeds = []
+        for k, oo in enumerate(outs):
+            if not oo.requires_grad:
+                continue
+            g = env.arr("g%d" % k, oo.shape, oo.dtype, lo=-2, hi=2)
+            gt = Tn(g)
+            seeds.append((k, gt, g, snapshot(g)))
+            oo.backward(gt)
+        for lab, a, snap in snaps:
+            out.pair(lab + " unchanged by backward", snapshot(a), snap)
+        for k, gt, g, snap in seeds:
+            out.pair("seed gradient %d unchanged" % k, snapshot(gt.data), snap)
+            out.fact("seed gradient %d keeps its array" % k, gt.data is g)
+        for sp, t, a in zip(specs, ts, arrays):
+            if sp.label not in white:
+                out.fact("operand %s keeps its array" % sp.label, t.data is a)
+            if t._grad is not None:
+                out.fact("grad(%s) does not share memory with a seed gradient" % sp.label,
+                         not any(np.shares_memory(ar.unwrap(t._grad), ar.unwrap(g)) for _, _, g, _ in seeds))
+        # accumulate once more into the leaves: the caller's seed must still be untouched
+        o2 = self.opdef.forward(self.args, ts, self.opdef.extra(self.args, env) if False else extra)
+        if self.opdef.deterministic(self.args):
+            for k, (oo, f) in enumerate(zip(as_list(o2), first)):
+                out.pair("repeated forward %d identical" % k, oo.data, f)
+        for k, gt, g, snap in seeds:
+            oo = as_list(o2)[k]
+            if oo.requires_grad:
+                oo.backward(gt)
+            out.pair("seed gradient %d unchanged by a second backward" % k, snapshot(gt.data), snap)
+        for lab, a, snap in snaps:
+            out.pair(lab + " unchanged by repetition", snapshot(a), snap)
+        return out
+
     # ------------------------------------------------------------------ dtype / shape facts (C10)
     def run_C10(self, env):
         out = E.Outcome()
@@ -255,6 +320,16 @@ class OpCase:
                          gr.dtype, tuple(gr.shape), t.dtype, tuple(t.shape), gdtype))
             out.notes["obs:grad(%s)" % sp.label] = t._grad
         return out
+
+
+def snapshot(a):
+    """element-wise copy: an object array copy keeps references to the very same scalar nodes, a float array
+    copy keeps the bytes"""
+    if isinstance(a, ar.SymArray):
+        o = a.view(np.ndarray).copy().view(ar.SymArray)
+        o._nd = a._nd
+        return o
+    return np.array(a, copy=True)
 
 
 def _exp_all(x, c=1):
